@@ -17,6 +17,15 @@ DOC_ALIASES = {"Container": "ContainerGroup", "Drillholes group": "DrillholeGrou
 NOT_IMPLEMENTED = {"Label": "its own docstring says 'Not yet implemented' (target / label position are placeholders)"}
 
 
+def _dview(ctx, fn):
+    """normalised view prepared for the denotation: calls to pure name-choosing helpers folded to the names they can return, loops
+    over literal tables unrolled"""
+    from ..h5den import fold_const_calls
+    from ._c02_flow import unroll_literal_loops
+
+    return unroll_literal_loops(fold_const_calls(ctx.view(fn), ctx.p, ctx.view))
+
+
 def type_uid_of(K):
     a = K.class_assigns.get("__TYPE_UID")
     if not a:
@@ -50,7 +59,7 @@ def rule_spec(ctx) -> RuleResult:
     # which groups init_geoh5 creates, by the node each create_group call denotes (loops over hoisted name tables included)
     from ..h5den import Den
 
-    igv = ctx.view(ig)
+    igv = _dview(ctx, ig)
     dn = Den(igv, ctx.p)
     got, got_t, has_project = set(), set(), False
     for c in ast.walk(igv.node):
@@ -173,7 +182,7 @@ def rule_link(ctx) -> RuleResult:
     W = p.cls("H5Writer")
     wmod = W.module
     n_links = 0
-    views = {name: ctx.view(fn0) for name, fn0 in W.methods.items()}
+    views = {name: _dview(ctx, fn0) for name, fn0 in W.methods.items()}
 
     def still_called(helper: str) -> bool:
         """some view still contains a call to the helper (it could not be expanded there)"""
@@ -184,11 +193,37 @@ def rule_link(ctx) -> RuleResult:
         return any(isinstance(c, ast.Call) and isinstance(c.func, ast.Attribute) and c.func.attr == helper
                    for fn0 in W.methods.values() for c in ast.walk(fn0.node))
 
+    def internal_only(helper: str) -> bool:
+        """no function outside the writer class mentions the method (it is not an entry point of the package)"""
+        return not any(isinstance(x, ast.Attribute) and x.attr == helper for f_ in p.all_functions() if f_.cls is not W for x in ast.walk(f_.node))
+
+    # units of analysis: a method on its own (its handle parameters are opaque), or — for a helper that only the writer itself uses
+    # and that was not expanded in place — the helper at each remaining call site, its parameters bound to what the caller passes
+    units = []
     for name, fn0 in W.methods.items():
-        if name.startswith("_") and not name.startswith("__") and called_somewhere(name) and not still_called(name):
-            continue  # a private helper expanded into each of its callers: decided there, where its handles are known
-        fn = views[name]
-        d = Den(fn, ctx.p)
+        private = name.startswith("_") and not name.startswith("__")
+        helper = called_somewhere(name) and (private or internal_only(name))
+        if helper and not still_called(name):
+            continue  # a helper expanded into each of its callers: decided there, where its handles are known
+        if helper and not private:
+            bound, complete = [], True
+            for cname, cv_ in views.items():
+                if cname == name:
+                    continue
+                dc = None
+                for c in ast.walk(cv_.node):
+                    if isinstance(c, ast.Call) and isinstance(c.func, ast.Attribute) and c.func.attr == name:
+                        dc = dc or Den(cv_, ctx.p)
+                        cd = dc.callee_den(c, lambda f_: _dview(ctx, f_))
+                        if cd is None or cd[0].name != name or not any(w and all(pth[0][0] != "FILE" for pth in w) for w in cd[1].env.values()):
+                            complete = False  # (a method that receives no node of the file from its caller is decided on its own)
+                        else:
+                            bound.append((name, cd[0], cd[1]))
+            if bound and complete:
+                units += bound
+                continue
+        units.append((name, views[name], Den(views[name], ctx.p)))
+    for name, fn, d in units:
         for a in ast.walk(fn.node):
             if isinstance(a, ast.Assign) and len(a.targets) == 1 and isinstance(a.targets[0], ast.Subscript):
                 tp = d.paths(a.targets[0])
@@ -249,6 +284,13 @@ def rule_link(ctx) -> RuleResult:
                 if isinstance(x, ast.Assign) and len(x.targets) == 1 and isinstance(x.targets[0], ast.Subscript):
                     if any(pth[-1] == ("const", frozenset({"Type"})) and pth[0][0] == "NODE" for pth in d.paths(x.targets[0])):
                         links.append(n)
+                if isinstance(x, ast.Call) and isinstance(x.func, ast.Attribute) and x.func.attr in W.methods and x.func.attr not in ("write_entity", "write_entity_type", "fetch_handle") \
+                        and any(d.paths(a_) for a_ in x.args[1:]):
+                    # a writer helper that is handed the new node and stores its Type link (not expanded in place)
+                    cd = d.callee_den(x, lambda f_: _dview(ctx, f_))
+                    if cd is not None and any(isinstance(y, ast.Assign) and len(y.targets) == 1 and isinstance(y.targets[0], ast.Subscript) and any(
+                            pth[-1] == ("const", frozenset({"Type"})) and pth[0][0] == "NODE" for pth in cd[1].paths(y.targets[0])) for y in ast.walk(cd[0].node)):
+                        links.append(n)
         if not creates or not links:
             continue
 
@@ -286,7 +328,7 @@ def rule_link(ctx) -> RuleResult:
         ("write_entity_type", "TNODE", "<project>/Types/<kind>/<type uid>", "entities link to a wrong or private type node"),
         ("write_entity", "NODE", "<project>/<flat container>/<entity uid>", ""),
     ):
-        fn = ctx.view(W.methods[mname])
+        fn = views[mname]
         d = Den(fn, ctx.p)
         target = d.params[1] if len(d.params) > 1 else None
         for r in [x for x in ast.walk(fn.node) if isinstance(x, ast.Return) and x.value is not None and unparse(x.value) != "None"]:
@@ -382,7 +424,7 @@ def rule_reparent(ctx) -> RuleResult:
             res.find("Entity", "parent", "_parent stored without add_children on the new parent", st.where, "the new parent does not list the entity")
     # the chain reaches the file: EntityContainer/ObjectBase.remove_children -> workspace.remove_children -> H5Writer.remove_child
     wr = p.func("Workspace.remove_children")
-    ok4 = any(isinstance(c, ast.Call) and isinstance(c.func, ast.Attribute) and c.func.attr == "_io_call" and c.args and unparse(c.args[0]) == "H5Writer.remove_child" for c in ast.walk(wr.node))
+    ok4 = any(isinstance(c, ast.Call) and isinstance(c.func, ast.Attribute) and c.func.attr == "_io_call" and c.args and unparse(c.args[0]) == "H5Writer.remove_child" for c in ast.walk(ctx.view(wr).node))
     res.inst("Workspace.remove_children -> _io_call(H5Writer.remove_child, child.uid, <kind>, parent)", ok=ok4)
     if not ok4:
         res.find("Workspace", "remove_children", "no H5Writer.remove_child call", wr.where, "the old parent's link stays on file")
@@ -403,7 +445,7 @@ def rule_reparent(ctx) -> RuleResult:
                          "flat container: the parent's entry no longer designates a member of the flat container")
     from ..h5den import Den
 
-    rc = ctx.view(p.func("H5Writer.remove_child"))
+    rc = _dview(ctx, p.func("H5Writer.remove_child"))
     d = Den(rc, ctx.p)
     prm = d.params  # (file, uid, ref_type, parent)
     ok5 = False
@@ -414,6 +456,22 @@ def rule_reparent(ctx) -> RuleResult:
                     if len(path) == 3 and path[0] == ("NODE", prm[3] if len(prm) > 3 else "parent") and path[2] == ("uid", "param:uid") \
                             and (path[1] == ("key", prm[2] if len(prm) > 2 else "ref_type")):
                         ok5 = True
+    if not ok5:
+        # the deletion may be made by a shared helper that receives the container: decided in the helper, bound to this call site
+        for c in ast.walk(rc.node):
+            if not isinstance(c, ast.Call):
+                continue
+            cd = d.callee_den(c, lambda f_: _dview(ctx, f_))
+            if cd is None or not (cd[1].env.keys() - {"file", "h5file"}):
+                continue
+            cfn, cden = cd
+            for dl in ast.walk(cfn.node):
+                if isinstance(dl, ast.Delete):
+                    for t in dl.targets:
+                        for path in cden.paths(t):
+                            if len(path) == 3 and path[0] == ("NODE", prm[3] if len(prm) > 3 else "parent") and path[2] == ("uid", "param:uid") \
+                                    and (path[1] == ("key", prm[2] if len(prm) > 2 else "ref_type")):
+                                ok5 = True
     res.inst("H5Writer.remove_child deletes <node of parent>/<ref_type>/<uid>", ok=ok5)
     if not ok5:
         res.find("H5Writer", "remove_child", "does not delete the parent's link", rc.where, "the old parent's link stays on file")
